@@ -1038,9 +1038,6 @@ static int cfg_setopt_value(cfg_t *cfg, cfg_opt_t *opt, const char *value, cfg_v
 				cfg_free_section(val->section);
 			}
 			val->section = sec;
-		} else if (!is_set(CFGF_DEFINIT, opt->flags)) {
-			if (cfg_init_defaults(val->section) != CFG_SUCCESS)
-				return CFG_FAIL;
 		}
 		break;
 
